@@ -473,7 +473,7 @@ func (f *FuncVC) appendBuiltin(st *State, x *ssa.Call) *Val {
 	ref, off, ln, cp := s.Fs[0].T, s.Fs[1].T, s.Fs[2].T, s.Fs[3].T
 	newLen := f.sc.define("alen", "Int", arith("+", ln, tlen))
 	fits := f.sc.define("fits", "Bool", cmp("<=", newLen, cp))
-	f.frameAppend(st, s, fits, et)
+	f.frameAppend(st, s, and(fits, cmp(">", tlen, "0")), et)
 	newRef := f.alloc(st)
 	newCap := f.sc.fresh("acap")
 	f.sc.declare(newCap, "Int")
